@@ -132,7 +132,9 @@ pub fn parse(src: &str, ci: bool) -> Option<Rx> {
 
 fn eqc(a: char, b: char, ci: bool) -> bool {
     if ci {
-        a == b || (a.is_ascii() && b.is_ascii() && a.eq_ignore_ascii_case(&b))
+        // a case-insensitive *regex* folds case by Unicode simple folding (unlike the i prefix on
+        // plain patterns, which is ASCII-only): É ~ é, K (U+212A) ~ k, ſ ~ s
+        a == b || a.to_lowercase().eq(b.to_lowercase()) || a.to_uppercase().eq(b.to_uppercase())
     } else {
         a == b
     }
